@@ -151,6 +151,8 @@ def gen_class(rng, name, refs, feats, leaf=False, root=False):
             kinds += ["union"] * 3
         if "punion" in feats:
             kinds += ["punion"]
+        if "qelem" in feats:
+            kinds += ["qelem"]
         k = rng.choice(kinds)
         n = fname()
         md = {}
@@ -179,6 +181,13 @@ def gen_class(rng, name, refs, feats, leaf=False, root=False):
             else:
                 md["required"] = True
                 flds.append({"name": n, "type": pt, "metadata": md})
+        elif k == "qelem":
+            # a QName-typed element (optional or list): the value is written with a generated prefix
+            md["type"] = "Element"
+            if "list" in feats and rng.random() < 0.5:
+                flds.append({"name": n, "type": {"list": "qname"}, "metadata": md, "default": {"factory": "list"}})
+            else:
+                flds.append({"name": n, "type": {"opt": "qname"}, "metadata": md, "default": {"value": None}})
         elif k == "punion":
             # an element whose type is a union of primitives (one PrimitiveNode, the converter tries the types in turn)
             md["type"] = "Element"
